@@ -22,7 +22,7 @@ EXPLANATION = (
 ASSUMPTIONS = ["std::atomic<thread_state>::compare_exchange_strong is atomic", "work_items_/new_tasks_/terminated_items_ deliver each pushed element to one pop (C17)",
                "on_start_thread runs on the owning worker before the pool's start-up barrier releases any work (reserve() calls exempt from R6)"]
 THOROUGH_CONFIGS = [["-UNDEBUG", "-DPIKA_DEBUG"], ["-DPIKA_HAVE_THREAD_QUEUE_WAITTIME"]]
-FLOORS = {"C01.R1": 8, "C01.R2": 6, "C01.R3": 8, "C01.R4": 24, "C01.R5": 12, "C01.R6": 10, "C01.R7": 9, "C01.R8": 2, "C01.R9": 1, "C01.R10": 6, "C01.R11": 4}
+FLOORS = {"C01.R1": 8, "C01.R2": 6, "C01.R3": 8, "C01.R4": 24, "C01.R5": 12, "C01.R6": 10, "C01.R7": 9, "C01.R8": 2, "C01.R9": 1, "C01.R10": 6, "C01.R11": 4, "C01.R12": 20}
 
 TSS = "pika::threads::detail::thread_schedule_state"
 TD = "pika::threads::detail::thread_data"
@@ -445,3 +445,10 @@ def run(rep, tier):
                     "opaque-return": "returns %s, which is not the outcome of a pop" % what}[kind])
         else:
             rep.ok("C01.R11", f, "%d pops, %d returns: success is returned at once, false only without a popped task" % (len(pops), nret), sites=len(pops) + nret)
+
+    # ---- R12: the containers the work queues are built on (the same rules decide C17)
+    import_rules(rep, tier, "C17", ("C17.R4", "C17.R5"), "C01.R12",
+                 "K8/K6 (shared with C17.R4/R5): the lock-free deque behind the LIFO work queues (tag change on every CAS, relinking only when stable, "
+                 "push followed by stabilize) and the queue back-ends (one container operation per push/pop, LIFO/FIFO/steal ends) - a task pushed while "
+                 "another worker pops is neither lost nor handed out twice")
+
